@@ -47,15 +47,13 @@ def repo_suite_events(modules, timeout=1800):
     finally:
         os.unlink(path)
 
-def validate_repo_suite(ctx, kind="statement-trace"):
-    """Binding B over the repository's own tests: every recorded parser / builder step is judged by TLC (TraceStatements.tla)."""
+def validate_events(ctx, evs, label, kind="statement-trace", texts=None):
+    """Binding B: every recorded parser / builder step of the events is judged by TLC (TraceStatements.tla)."""
     import json, re, shutil
     from . import tlc, tlaval
-    evs = repo_suite_events(["pydsdl/_test.py", "pydsdl/_namespace.py", "pydsdl/_namespace_reader.py", "pydsdl/_dsdl_definition.py",
-                             "pydsdl/_data_type_builder.py", "pydsdl/_parser.py"])
     seq, files = to_sequence(evs)
     if not any(e["ev"] == "stmt" for e in seq):
-        raise tlc.MachineryError("the statement hooks did not fire while the repository's tests ran")
+        raise tlc.MachineryError("the statement hooks did not fire (%s)" % label)
     wd = tlc.workdir("c03rt")
     rp = wd / "trace.ndjson"
     rp.write_text("\n".join(json.dumps(x) for x in seq) + "\n")
@@ -66,12 +64,24 @@ def validate_repo_suite(ctx, kind="statement-trace"):
         raise tlc.MachineryError("no verdict from TraceStatements: %s" % res.out[-800:])
     for b in sorted(tlaval.parse(m.group(2)))[:30]:
         lo = max(0, b - 4)
-        ctx.violation({"kind": kind, "case": "repository tests",
-                       "diff": [("recorded parser / builder step contradicts the statement machine", seq[b - 1],
-                                 "preceding steps", [(x["ev"], x["kind"], x["line"]) for x in seq[lo:b - 1]])]})
+        rec = {"kind": kind, "case": label,
+               "diff": [("recorded parser / builder step contradicts the statement machine", seq[b - 1],
+                         "preceding steps", [(x["ev"], x["kind"], x["line"]) for x in seq[lo:b - 1]])]}
+        if texts is not None:
+            # the text of the read the step belongs to (the n-th outermost read of the corpus)
+            n = sum(1 for x in seq[:b] if x["ev"] == "begin") - 1
+            if 0 <= n < len(texts):
+                rec["text"] = texts[n]
+        ctx.violation(rec)
     tlc.cleanup(res)
     shutil.rmtree(wd, ignore_errors=True)
     reads = sum(1 for e in seq if e["ev"] == "begin")
     ctx.traces += reads
     ctx.count(len(seq))
-    ctx.extra["repository_statement_trace"] = {"events": len(seq), "reads": reads, "statements": sum(1 for e in seq if e["ev"] == "stmt")}
+    return {"events": len(seq), "reads": reads, "statements": sum(1 for e in seq if e["ev"] == "stmt")}
+
+def validate_repo_suite(ctx, kind="statement-trace"):
+    """Binding B over the repository's own tests."""
+    evs = repo_suite_events(["pydsdl/_test.py", "pydsdl/_namespace.py", "pydsdl/_namespace_reader.py", "pydsdl/_dsdl_definition.py",
+                             "pydsdl/_data_type_builder.py", "pydsdl/_parser.py"])
+    ctx.extra["repository_statement_trace"] = validate_events(ctx, evs, "repository tests", kind)
